@@ -353,7 +353,12 @@ func Loft3D(sdf0, sdf1 SDF2, height, round float64) (SDF3, error) {
 // Evaluate returns the minimum distance to a loft extrusion.
 func (s *LoftSDF3) Evaluate(p v3.Vec) float64 {
 	// work out the mix value as a function of height
-	k := Clamp((0.5*p.Z/s.height)+0.5, 0, 1)
+	// (height == 2 * round leaves no straight section: s.height is 0 and 0.5*0/0 is NaN on the
+	// mid-plane, where the two profiles meet half and half)
+	k := 0.5
+	if s.height != 0 {
+		k = Clamp((0.5*p.Z/s.height)+0.5, 0, 1)
+	}
 	// mix the 2D SDFs
 	a0 := s.sdf0.Evaluate(v2.Vec{p.X, p.Y})
 	a1 := s.sdf1.Evaluate(v2.Vec{p.X, p.Y})
